@@ -288,7 +288,14 @@ def run(tier):
         nid += len(hs)
         emitted[label] = len(hs)
         scenarios += hs
-    scenarios = scenarios * 1
+    # the same cells on a current-thread runtime (quick: two phases; thorough: every single-event cell)
+    ct = [dict(x, rt="current") for x in scenarios
+          if x["ev2"] == "none" and x["mode"] == "WebRtc" and x["ev1"] != "BlockedSender"
+          and (tier != "quick" or x["phase"] in ("dtlsHandshaking", "channelsOpen"))]
+    for i, x in enumerate(ct):
+        x["id"] = nid + i
+    emitted["current_thread"] = len(ct)
+    scenarios += ct
     runs = []
     for rep in range(pl["repeat"]):
         batch = [dict(s, id=s["id"] + rep * 100000) for s in scenarios]
@@ -354,7 +361,7 @@ def run(tier):
             sc = r[0]["scenario"]
             validated += 1
             if r[-1].get("hit") and not [v for v in broken if v[0] != "EXT"]:
-                nontrivial.add((sc["mode"], sc["phase"], sc["ev1"], sc["ev2"], sc["at2"]))
+                nontrivial.add((sc["mode"], sc["phase"], sc["ev1"], sc["ev2"], sc["at2"], sc.get("rt", "multi")))
 
     reported, confirmed = set(), {}
     for mode, dc, r, v in findings:
